@@ -198,6 +198,11 @@ impl Compactor {
 			Arc::clone(&self.options.lopts.clock),
 			snapshots,
 		);
+		// Commits that are in the input tables but not published yet, and the
+		// version a transaction begun right now reads, are protected as well.
+		if let Some(horizon) = self.options.snapshot_tracker.horizon() {
+			comp_iter = comp_iter.with_horizon(horizon);
+		}
 
 		let mut entries = 0;
 		for item in &mut comp_iter {
